@@ -133,7 +133,7 @@ SPEC = dict(
          "Correspondence run: DNA (K=5, AVX2 permute path) and protein (K=21, AVX2 gather path) cases; C=32 through "
          "Pipeline::generic/sse2/avx2, Pipeline::dispatch() and ScoringMatrix::score under each forced arm "
          "(verif hook) and unforced; C=16 and C=48 through generic and SSE2; M in 0..40; L in {0..M+2}, "
-         "{k*C+d}, 1..300, around C*C (and around 256*C, k*C for k<40 in the thorough tier); matrices of "
+         "{k*C+d}, 1..300, around C*C, around 256*C (1% of the quick tier; and k*C for k<40 in the thorough tier); matrices of "
          "quarter-grid values, log-odds-like values, random bit patterns of moderate and of wide magnitude, "
          "subnormals, a few overflowing ones, +0/-0 cells, -inf in the wildcard column (60%) and elsewhere; "
          "sequences with wildcards anywhere; configure(), configure_wrap(k) with k above and below M-1, and "
